@@ -48,7 +48,7 @@ def plan(tier):
 
     for s in HIST_STARTS:
         for op in history.menu(history.start(s), 'nocomp'):
-            t.append({'kind': 'hist', 'start': s, 'prefix': [op], 'depth': 2 if tier == 'quick' else 3})
+            t.append({'kind': 'hist', 'start': s, 'prefix': [op], 'depth': 3 if (tier == 'thorough' and s in ('S4', 'S7')) else 2})
     return t
 
 
@@ -62,7 +62,7 @@ def describe(tier):
             'quick': 'F(1,<=2,FULL), F(2,1,FULL) all policies + block pairs; F(2,2,FULL), F(3,1,FULL), F(2,2,KO) core '
             'policies + single blocks; F(2,3,C+L+K+AND) last-gate output, no blocks',
             'thorough': '+ F(2,2,FULL) all policies + block pairs, F(3,2,FULL) core, F(2,3,C+L+K+AND) core + pairs, '
-            'F(2,3,FULL\\S3) and F(2,3,KO) last-gate output; histories of length <= 3',
+            'F(2,3,FULL\\S3) and F(2,3,KO) last-gate output; histories of length <= 3 from the two smallest start states, <= 2 from the others',
         }[tier],
         'exhaustive': True,
         'assumptions': ['vmc.refmodel evaluator and well-formedness predicate'],
